@@ -67,6 +67,7 @@ def match_known(known, prop, res):
         if k.get('status') != 'open': continue
         if prop not in k.get('properties', [k.get('property')]): continue
         if k.get('oracle') and k['oracle'] != res.get('oracle'): continue
+        if k.get('oracle_any') and res.get('oracle') not in k['oracle_any']: continue
         if k.get('msg_regex') and not re.search(k['msg_regex'], res.get('msg', '')): continue
         if k.get('build') and k['build'] != res.get('build'): continue
         return k
@@ -210,6 +211,7 @@ def check_property(pid, tier, base_seed, out=sys.stdout, write_evidence=True, ex
     # violations: gate, classify, minimise
     exit_code = 0
     reported = []
+    known_printed = set()
     classes = {}
     for v in viol: classes.setdefault((v[3].get('oracle'), v[1]), []).append(v)
     os.makedirs(os.path.join(VERIF, 'replays'), exist_ok=True)
@@ -226,7 +228,9 @@ def check_property(pid, tier, base_seed, out=sys.stdout, write_evidence=True, ex
             out.write('MACHINERY-ERROR property=%s violation class %s (family %s build %s seed %d) does not replay identically: %s/%s vs %s\n' % (pid, oracle, fam, b, sd, g1.get('oracle'), g1.get('event_hash'), r.get('event_hash')))
             exit_code = max(exit_code, 2); continue
         if kn is not None:
-            out.write('KNOWN-FINDING: property=%s %s [%s; %d runs in this batch; e.g. family=%s build=%s seed=%d]\n' % (pid, kn['what'], kn['id'], len(vs), fam, b, sd))
+            if kn['id'] not in known_printed:
+                known_printed.add(kn['id'])
+                out.write('KNOWN-FINDING: property=%s %s [%s; e.g. family=%s build=%s seed=%d]\n' % (pid, kn.get('title', kn['what'][:200]), kn['id'], fam, b, sd))
             reported.append({'oracle': oracle, 'build': b, 'known': kn['id'], 'runs': len(vs)})
             continue
         mn = Minimiser(bdir, b, plan, oracle, budget_runs=spec.get('min_runs', 250), budget_s=spec.get('min_s', 60))
